@@ -13,6 +13,49 @@ NOT_DECIDED = ('that the bytes denote exactly the pushed data in general; validi
 ENC = [('cbor', 'basic_cbor_encoder'), ('msgpack', 'basic_msgpack_encoder'), ('ubjson', 'basic_ubjson_encoder')]
 VALUE_VISITS = ('visit_null', 'visit_bool', 'visit_string', 'visit_byte_string', 'visit_int64', 'visit_uint64', 'visit_double', 'visit_half')
 
+def r08_4(chk, tier):
+    """The buffered stream sinks hand on every byte they were given."""
+    chk.rule('R08.4', 'buffered sinks: in the stream sinks a block copied into the buffer at the cursor (memcpy(p_, s, n)) is followed by the '
+                      'advance of the cursor on every path before the buffered length is read or the buffer is written out; otherwise the bytes '
+                      'just copied are not part of what is flushed and disappear from the output', floor=2)
+    facts = F.load(['core'], tier)
+    if 'core' not in chk.units: chk.units.append('core')
+    n = 0; seen = set()
+    for fn in sorted(facts.functions, key=lambda f: bool(f.get('dep'))):
+        if fn.get('body') is None or not fn['file'].endswith('jsoncons/sink.hpp') or (fn['file'], fn['l']) in seen: continue
+        copies = []
+        for c in A.calls_in(fn['body'], no_lambda=True):
+            if A.callee_name(c) in ('memcpy', 'memmove') and c.get('args'):
+                d = A.strip(c['args'][0], casts=True)
+                if d is not None and d.get('k') == 'MemberExpr': copies.append((c, d.get('n')))
+        if not copies: continue
+        seen.add((fn['file'], fn['l']))
+        chk.analysed(fn)
+        g = C.CFG(fn['body'])
+        for c, cur in copies:
+            n += 1
+            mn = g.node_of(c)
+            adv = []; reads = []
+            for nd in g.rpo:
+                if nd.kind not in ('stmt', 'cond', 'return') or not isinstance(nd.ast, dict) or nd is mn: continue
+                x = A.strip(nd.ast, casts=True)
+                tgt = None
+                if x is not None and x.get('k') in ('BinaryOperator', 'CompoundAssignOperator') and x.get('op', '').endswith('=') and x.get('op') not in ('==', '!=', '<=', '>='):
+                    tgt = A.strip(x.get('lhs'), casts=True)
+                if tgt is not None and tgt.get('k') == 'MemberExpr' and tgt.get('n') == cur: adv.append(nd); continue
+                if any(A.callee_name(y) in ('buffer_length', 'write', 'flush') for y in A.calls_in(nd.ast)) or \
+                   any(y.get('k') == 'MemberExpr' and y.get('n') == cur for y in A.walk_no_lambda(nd.ast)): reads.append(nd)
+            site = U.site(fn, 'copy at line %s' % c.get('l'))
+            bad = [r for r in reads if mn is not None and g.can_reach(mn, [r], avoid=adv) and r is not mn]
+            leak = mn is not None and g.can_reach(mn, [g.exit_return], avoid=adv)
+            if not bad and not leak: chk.ok('R08.4', site, {'function': fn['q'], 'cursor': cur})
+            elif bad:
+                chk.fail('R08.4', site, fn['file'], bad[0].line or c.get('l'), '%s copies into the buffer at %s (line %s) and reads the buffered length / writes the buffer at line %s '
+                         'before %s is advanced: the copied bytes are not flushed' % (fn['n'], cur, c.get('l'), bad[0].line, cur), None, fn['q'])
+            else:
+                chk.fail('R08.4', site, fn['file'], c.get('l'), '%s copies into the buffer at %s (line %s) and returns without advancing %s' % (fn['n'], cur, c.get('l'), cur), None, fn['q'])
+    chk.require(n >= 2, 'R08.4: only %d buffer copies found in sink.hpp' % n)
+
 def run(chk, tier, only_rule=None):
     chk.explanation = EXPLANATION
     chk.not_decided = NOT_DECIDED
@@ -82,4 +125,6 @@ def run(chk, tier, only_rule=None):
     if 'core' not in chk.units: chk.units.append('core')
     c06.r06_3(chk, tier)
     c06.r06_5(chk, tier)
+    c06.r06_6(chk, tier)
+    r08_4(chk, tier)
     c06.ladders(chk, tier)      # a header that announces another width/family than the bytes that follow is not well-formed
